@@ -14,11 +14,12 @@ Rec == ndJsonDeserialize(IOEnv.TRACE)
 VARIABLES
   l,          \* index of the next record to consume
   lastAlloc,  \* the allocated page set of the last accounting record (<<>> before the first)
-  clean       \* nothing that may legitimately change the allocation happened since that record
+  clean,      \* nothing that may legitimately change the allocation happened since that record
+  armed       \* a storage fault has been injected into this run (C08)
 
-vars == <<kvVars, l, lastAlloc, clean>>
+vars == <<kvVars, l, lastAlloc, clean, armed>>
 
-TraceInit == Init /\ l = 1 /\ lastAlloc = <<>> /\ clean = FALSE
+TraceInit == Init /\ l = 1 /\ lastAlloc = <<>> /\ clean = FALSE /\ armed = FALSE
 
 \* calls after which the set of allocated pages may differ: a completed commit, reopen, compaction,
 \* integrity check, crash.  Everything else - in particular abort(), a dropped transaction and a
@@ -33,10 +34,56 @@ TReset ==
   /\ Ev("reset")
   /\ hist' = <<EmptyDb>> /\ dur' = 1 /\ inflight' = <<>> /\ wtx' = NoTx /\ readers' = EmptyFn /\ rpend' = EmptyFn
   /\ eph' = EmptyFn /\ nextOrd' = 1 /\ its' = EmptyFn /\ latch' = "ok"
-  /\ lastAlloc' = <<>> /\ clean' = FALSE
+  /\ lastAlloc' = <<>> /\ clean' = FALSE /\ armed' = FALSE
 
 \* a record that carries information for humans only
-TNote == Ev("note") /\ UNCHANGED <<kvVars, lastAlloc, clean>>
+TNote == Ev("note") /\ UNCHANGED <<kvVars, lastAlloc, clean, armed>>
+
+\* the harness arms (or disarms) a fault in the storage backend: from now on calls may fail
+TFault == Ev("fault") /\ armed' = TRUE /\ UNCHANGED <<kvVars, lastAlloc, clean>>
+
+(***************************************************************************)
+(* C08 - storage errors.  Once a fault has been injected, or the database  *)
+(* has latched a failure, a call may return a storage error instead of its *)
+(* specified result.  What the property still demands, and what these      *)
+(* disjuncts therefore do NOT allow: a panic (never an enabled record), a  *)
+(* successful commit() or begin_write() after an error was returned, a     *)
+(* read that returns Ok with anything but the specified value (reads go    *)
+(* through Do as always).                                                  *)
+(***************************************************************************)
+StorageErr(r) == IsErr(r) /\ r.err \in {"Io", "PreviousIo"}
+WtxOps == {"open", "close", "rename", "delete", "ins", "insr", "getmut", "entry", "rem", "pop", "retain", "extract",
+           "mins", "mrem", "mremall", "spe", "spp", "spdel", "splist", "spreste", "sprestp", "dur"}
+ViewOps == {"get", "len", "edge", "range", "mget", "mrange", "list"}
+IsWtxOp(R) == R.e \in WtxOps \/ (R.e \in ViewOps /\ "src" \in DOMAIN R /\ R.src = "w")
+Taint == IF wtx.on THEN [wtx EXCEPT !.tainted = TRUE] ELSE wtx
+
+FaultyStep ==
+  /\ (armed \/ latch = "failed")
+  /\ l <= Len(Rec) /\ l' = l + 1
+  /\ UNCHANGED <<lastAlloc, clean, armed>>
+  /\ LET R == Rec[l] IN
+     \/ \* a call other than commit/abort/reopen reports a storage error: nothing is applied to the
+        \* committed state; a write transaction it happened in can no longer be trusted
+        /\ "r" \in DOMAIN R /\ StorageErr(R.r) /\ R.e \notin {"cend", "cbegin", "abort", "reopen", "crash", "probe"}
+        /\ latch' = "failed"
+        /\ wtx' = IF IsWtxOp(R) THEN Taint ELSE wtx
+        /\ UNCHANGED <<hist, dur, inflight, readers, rpend, eph, nextOrd, its>>
+     \/ \* a dump through a reader fails
+        /\ R.e = "dump" /\ "error" \in DOMAIN R.obs
+        /\ latch' = "failed" /\ UNCHANGED <<hist, dur, inflight, wtx, readers, rpend, eph, nextOrd, its>>
+     \/ \* calls inside a transaction in which an error was reported: any result but a panic; the
+        \* transaction can only end without being committed
+        /\ wtx.on /\ wtx.tainted /\ IsWtxOp(R)
+        /\ ("r" \in DOMAIN R => (IsOk(R.r) \/ IsErr(R.r)))
+        /\ UNCHANGED kvVars
+     \/ /\ wtx.on /\ wtx.tainted /\ R.e = "cbegin" /\ UNCHANGED kvVars
+     \/ /\ wtx.on /\ wtx.tainted /\ R.e = "cend" /\ IsErr(R.r)
+        /\ wtx' = NoTx /\ latch' = "failed" /\ inflight' = <<>>
+        /\ UNCHANGED <<hist, dur, readers, rpend, eph, nextOrd, its>>
+     \/ /\ wtx.on /\ wtx.tainted /\ R.e = "abort" /\ (IsOk(R.r) \/ IsErr(R.r))
+        /\ wtx' = NoTx /\ UNCHANGED <<hist, dur, inflight, readers, rpend, eph, nextOrd, its, latch>>
+
 
 \* page accounting projected from the real state at a transaction boundary
 TAcct ==
@@ -46,14 +93,17 @@ TAcct ==
                 Check("AbortLeavesNoTrace", SetOf(Rec[l].alloc) = lastAlloc[1], Rec[l])
           /\ lastAlloc' = <<SetOf(Rec[l].alloc)>> /\ clean' = TRUE
      ELSE lastAlloc' = <<>> /\ clean' = FALSE
+  /\ UNCHANGED armed
 
 TraceNext ==
   \/ TReset
   \/ TNote
+  \/ TFault
+  \/ FaultyStep
   \/ TAcct
   \/ /\ l <= Len(Rec) /\ l' = l + 1
      /\ Do(Rec[l])
-     /\ lastAlloc' = lastAlloc
+     /\ lastAlloc' = lastAlloc /\ armed' = armed
      /\ clean' = (clean /\ ~MayChangeAlloc(Rec[l]))
 
 TraceSpec == TraceInit /\ [][TraceNext]_vars
